@@ -5,7 +5,7 @@ from .. import tlc, drive, glue, corpus
 from ..core import Machinery
 
 DESIGN_CORE = ["MAJOR.MINOR.PATCH[PYTAGNUM]", "vYYYY0M.BUILD[-TAG[NUM]]", "vYYYY.0W[.INC0][-TAG]", "YYYY.MM[.MINOR[.PATCH]]",
-               "vGGGG.0V.INC1", "YY.0M.0D.PATCH-TAGNUM", "YYYY.MM[.INC1]"]
+               "vGGGG.0V.INC1", "YY.0M.0D.PATCH-TAGNUM", "YYYY.MM[.INC1]", "MM.YYYY.INC0"]
 CFG = "INIT Init\nNEXT Next\nINVARIANT BumpFollowsRules\nCHECK_DEADLOCK FALSE\n"
 
 
